@@ -13,7 +13,14 @@ RULE = ("AIOW: the real minicbor_io::AsyncWriter driven by a hand-rolled determi
         "{0, n-1, n, n+1} around each payload. Seeded random walks beyond. The harness oracle re-states the property: after every value the "
         "sink is exactly the concatenation of the complete frames of the accepted values; a completed write returns the payload length; "
         "refused values (encode failure, over-long) make no sink call; number of write-zero errors == number of 0-accepts; the idle sync makes "
-        "no sink call. Non-trivial = the sink script is not empty.")
+        "no sink call. "
+        "Interleaved operations (ops= / fl=): AsyncWriter::flush (over a scripted poll_flush: Ready / Pending / error; polled to completion or "
+        "dropped while pending) and set_max_len at every point where the caller holds no pending future - before a write, after a completed "
+        "write, between a cancelled or failed write and its sync, between re-issued syncs, before the final sync: exhaustively one operation "
+        "(11 kinds incl. set_max_len 0 / n-1 / n / 1000) at every gap of every small schedule with <= 2 (3) sink parts and 1-2 Pendings with at "
+        "least one drop, or an error / 0-accept; two operations at every pair of gaps on a thinner set; limits below and above frames of 30, "
+        "200, 70000 bytes in flight; random walks. Added oracle: no operation calls poll_write or changes the sink, and accepted is judged "
+        "against the max_len in force when the write was issued. Non-trivial = the sink script is not empty.")
 ASSUMPTIONS = ["wake-ups and real executors are not modelled",
                "the inner AsyncWrite honours its contract (n <= buf.len(); nothing accepted on Pending / Err)",
                "callers follow the protocol of the property: after a dropped or failed write, sync is driven to completion before the next write",
@@ -30,8 +37,82 @@ def total_bytes(vals, mx):
         if n <= mx: t += 4 + n
     return t
 
-def line(mx, vals, sink, calls):
-    return "AIOW max=%d vals=%s sink=%s calls=%s" % (mx, ",".join(vals) or "-", ",".join(str(t) for t in sink) or "-", calls or "-")
+def line(mx, vals, sink, calls, ops=None, fl=None):
+    s = "AIOW max=%d vals=%s sink=%s calls=%s" % (mx, ",".join(vals) or "-", ",".join(str(t) for t in sink) or "-", calls or "-")
+    if ops is not None: s += " ops=%s fl=%s" % (ops_text(ops), ",".join(fl or []) or "-")
+    return s
+
+def ops_text(gaps):
+    """gaps: list of lists of op tokens (F, FX, FPX, M<n>); one gap per point where the caller holds no future."""
+    while gaps and not gaps[-1]: gaps = gaps[:-1]
+    return "/".join(",".join(g) or "-" for g in gaps) or "-"
+
+def gap_bound(vals, sink):
+    """An upper bound on the number of gaps a run consumes: one before every write, one before every (re-)issued sync
+    (each needs a Pending, an error, a 0-accept or a refusal), one before the final sync."""
+    return 2 * len(vals) + sum(1 for t in sink if t in ("P", "E", 0)) + 1
+
+def place(G, pos_ops):
+    gaps = [[] for _ in range(G)]
+    for p, op in pos_ops: gaps[p].append(op)
+    return gaps
+
+# single operations with the poll_flush script that makes them interesting
+def single_ops(n):
+    return [("F", []), ("F", ["P"]), ("F", ["E"]), ("F", ["P", "P", "E"]), ("FX", ["P"]), ("FPX", ["P", "P"]), ("FX", ["R"]),
+            ("M0", []), ("M%d" % max(n - 1, 0), []), ("M%d" % n, []), ("M1000", [])]
+
+def ops_cases(tier, rng):
+    """One or two interleaved flush / set_max_len operations at every gap of small schedules - before a write, after a
+    completed write, between a cancelled (or failed) write and its sync, between re-issued syncs, before the final sync."""
+    big = tier == "thorough"
+    out = []
+    mx = 16
+    # the two scenarios in small: a write cancelled after 2 bytes, then a flush that is itself cancelled at the next Pending of the sink /
+    # the limit lowered below the frame in flight; then sync, then the next value
+    for ops, fl in (([[], ["FX"]], ["P"]), ([[], ["FX"]], []), ([[], ["M0"]], []), ([[], ["M0", "FX"]], ["P"]), ([[], ["FX"], ["FX"]], ["P", "P"])):
+        out.append(line(mx, ["010203", "07"], [2, "P", 1, "P", 2, "P"], "X", ops, fl))
+        out.append(line(mx, ["010203", "07"], [2, "P", 1, "P", 2, "P"], "XX", ops, fl))
+    for vals in [["01"], ["0102"], ["01", "."], [".", "01"], ["01", "0203"], ["!aa", "01"], ["0102", "!bb"], ["010203"], ["01", ".", "02"]]:
+        L = total_bytes(vals, mx)
+        n = len(bstr(bytes.fromhex(vals[-1].lstrip("!").replace(".", ""))))
+        scripts = []
+        for parts in compositions(L):
+            if len(parts) > (3 if big else 2): continue
+            for pc in pend_placements(len(parts), 2, 2 if big else 1):
+                if sum(pc) == 0: continue
+                sc = weave(parts, pc)
+                for cs in decisions(sum(pc)):
+                    if "X" in cs: scripts.append((sc, cs))
+            for i in range(len(parts) + 1):
+                for ins, cs in ((["E"], ""), ([0], ""), (["P", "E"], "X"), (["E", "P"], "X")):
+                    scripts.append((parts[:i] + ins + parts[i:], cs))
+        scripts.append(([], ""))
+        for sc, cs in scripts:
+            G = gap_bound(vals, sc)
+            for p in range(G):
+                for op, fl in single_ops(n):
+                    out.append(line(mx, vals, sc, cs, place(G, [(p, op)]), fl))
+        # two operations: same gap (both orders) or two different gaps, on a thinner set of schedules
+        two = [("F", "P"), ("FX", "P"), ("M0", None), ("M1000", None), ("M%d" % max(n - 1, 0), None)]
+        thin = [x for x in scripts if len(x[0]) <= (4 if big else 3)]
+        thin = thin[:: 2] if big else thin[:: 5]
+        for sc, cs in thin:
+            G = gap_bound(vals, sc)
+            for p in range(G):
+                for q in range(p, G):
+                    for a, fa in two:
+                        for b, fb in two:
+                            out.append(line(mx, vals, sc, cs, place(G, [(p, a), (q, b)]), [f for f in (fa, fb) if f]))
+    # the limit lowered / raised while a larger frame is in flight (buffers with spare capacity: vals of length 2 mod 3 get 100 000 bytes)
+    for n in (30, 200, 70000):
+        v = bytes((i * 5 + 1) & 0xff for i in range(n)).hex()
+        for m in (0, 8, n - 1, n + 10, 4000000000):
+            for ops in ([[], ["M%d" % m]], [[], ["M%d" % m, "F"]], [[], ["FX", "M%d" % m, "FX"]], [["M%d" % m]], [[], [], ["M%d" % m]], [[], ["F"], ["M%d" % m], ["FX"]]):
+                out.append(line(300000, [v, "07"], [10, "P", 7, "P"], "XX", ops, ["P"]))
+                out.append(line(300000, [v, "07", v], [10, "P", 7, "E"], "X", ops, ["P", "P"]))
+                out.append(line(300000, ["07", v], [5, 1, "P"], "X", ops, []))
+    return out
 
 def generate(tier, rng):
     big = tier == "thorough"
@@ -74,6 +155,30 @@ def generate(tier, rng):
         px = rng.choice([0.1, 0.5, 0.9])
         cs = "".join("X" if rng.random() < px else "P" for _ in range(sum(1 for t in sc if t == "P") + 2))
         out.append(line(mx, vals, sc, cs))
+    out += ops_cases(tier, rng)
+    # random walks with operations in random gaps
+    for _ in range(40000 if big else 8000):
+        vals = []
+        for _ in range(rng.randrange(1, 6)):
+            n = rng.choice([0, 1, 2, 3, 5, 22, 23, 24, 25, 254, 255, 256, 300]) if rng.random() < 0.25 else rng.randrange(0, 10)
+            c = bytes(rng.getrandbits(8) for _ in range(n))
+            vals.append(("!" if rng.random() < 0.1 else "") + item(c))
+        sizes = [len(bstr(bytes.fromhex(v.lstrip("!").replace(".", "")))) for v in vals]
+        mx = max(0, rng.choice([max(sizes), max(sizes) + 1, rng.choice(sizes), 512 * 1024]))
+        L = sum(4 + x for x in sizes)
+        sc = rand_script(rng, max(L, 1), rng.choice([0.1, 0.3, 0.6]), rng.choice([0, 0.05, 0.2]), tok_extra=(0,), maxpart=rng.choice([None, 1, 2, 3, 5]))
+        cs = "".join("X" if rng.random() < rng.choice([0.1, 0.5, 0.9]) else "P" for _ in range(sum(1 for t in sc if t == "P") + 2))
+        G = gap_bound(vals, sc)
+        gaps = []
+        for _ in range(G):
+            g = []
+            while rng.random() < 0.35:
+                r = rng.random()
+                if r < 0.5: g.append("F" + "".join(rng.choice("PX") for _ in range(rng.randrange(0, 3))))
+                else: g.append("M%d" % max(0, rng.choice([0, 1, rng.choice(sizes), rng.choice(sizes) - 1, rng.choice(sizes) + 1, max(sizes), 512 * 1024, 4294967295])))
+            gaps.append(g)
+        fl = [rng.choice("RPPPE") for _ in range(rng.randrange(0, 6))]
+        out.append(line(mx, vals, sc, cs, gaps, fl))
     # values larger than 64 KiB (a writer that releases or regrows large buffers has seams there): the returned length, the frames
     bigv = bytes((i * 7 + 3) & 0xff for i in range(70000)).hex()
     out.append(line(300000, ["01", bigv, "0203"], [], ""))
@@ -99,4 +204,8 @@ def classify(line, impl):
     if "E" in toks: tag += "/err"
     if "0" in toks: tag += "/zero"
     if "we:len" in impl or "we:enc" in impl: tag += "/refused"
+    o = _kv(line, "ops")
+    if o != "-":
+        if "F" in o: tag += "/flush"
+        if "M" in o: tag += "/setmax"
     return tag
